@@ -437,7 +437,9 @@ impl Scenario for C18 {
             }
             "Origin" => {
                 use dep3::Origin as O;
-                let val = if sel % 2 == 0 { O::Commit(a[2].clone()) } else { O::Other(format!("https://{}", a[2])) };
+                // a commit id that itself starts with "commit:" is written with one more prefix and read with one less
+                let id = if (sel / 2) % 4 == 3 { format!("commit:{}", a[2]) } else { a[2].clone() };
+                let val = if sel % 2 == 0 { O::Commit(id) } else { O::Other(format!("https://{}", a[2])) };
                 match mode {
                     "canonical" => canonical::<O>(&c.ty, &val.to_string(), e, p!(O), q!(O), mode),
                     _ => cycle(&c.ty, val, e, p!(O), q!(O), mode),
@@ -445,7 +447,8 @@ impl Scenario for C18 {
             }
             "AppliedUpstream" => {
                 use dep3::AppliedUpstream as A;
-                let val = if sel % 2 == 0 { A::Commit(a[2].clone()) } else { A::Other(format!("{}.{}", num, a[2])) };
+                let id = if (sel / 2) % 4 == 3 { format!("commit:{}", a[2]) } else { a[2].clone() };
+                let val = if sel % 2 == 0 { A::Commit(id) } else { A::Other(format!("{}.{}", num, a[2])) };
                 match mode {
                     "canonical" => canonical::<A>(&c.ty, &val.to_string(), e, p!(A), q!(A), mode),
                     _ => cycle(&c.ty, val, e, p!(A), q!(A), mode),
@@ -456,7 +459,8 @@ impl Scenario for C18 {
                 use dep3::{Origin as O, OriginCategory as OC};
                 let cat = [None, Some(OC::Backport), Some(OC::Vendor), Some(OC::Upstream), Some(OC::Other)][sel % 5];
                 let origin = match (sel / 5) % 5 {
-                    0 | 1 => O::Commit(a[2].clone()),
+                    0 => O::Commit(a[2].clone()),
+                    1 => O::Commit(if (sel / 25) % 3 == 0 { format!("commit:{}", a[2]) } else { a[2].clone() }),
                     // an empty commit id is representable and prints as "commit:"
                     2 => O::Commit(String::new()),
                     3 => O::Other(format!("https://{}", a[2])),
